@@ -79,8 +79,8 @@ def _norm_step(s):
         if i is not None and i not in rank: rank[i] = len(rank)
     d['canon'] = [None if c is None else {'class': rank[c['id']], 'idem': c['idem'], 'nslots': c['nslots'], 'vals': c['vals'], 'hvals': c['hvals']} for c in s['canon']]
     cls = s.get('classes') or {}
-    d['classes'] = sorted(json.dumps({k: v for k, v in c.items() if k in ('nslots', 'gcount', 'data')}, sort_keys=True) for c in cls.values())
-    d['handle_classes'] = [None if c is None else {k: v for k, v in cls.get(str(c['id']), {}).items() if k in ('nslots', 'gcount', 'data')} for c in s['canon']]
+    d['classes'] = sorted(json.dumps({k: v for k, v in c.items() if k in ('nslots', 'gcount', 'data', 'data_fix')}, sort_keys=True) for c in cls.values())
+    d['handle_classes'] = [None if c is None else {k: v for k, v in cls.get(str(c['id']), {}).items() if k in ('nslots', 'gcount', 'data', 'data_fix')} for c in s['canon']]
     d['live'] = len(s.get('live') or [])
     chk = s.get('check')
     if chk is not None:
